@@ -87,4 +87,106 @@ theorem c16_text_agrees_ap_partial (mcfg : Model.Machine.Cfg) (hap : mcfg.ap = t
       simp [Proofs.Typed.skipWs_cons hw]
     | _ => simp
 
+/-! ## the executable statement of op `c16` under the feature applies exactly these exclusions -/
+
+/-- The exclusion evaluated by the driver in the `ap` configuration (`Model.FromValue.c16ApExcluded`, through the guarded
+    `Number::as_f64`) is the disjunction of the three exclusions of the theorem: on every pair outside it (and outside the
+    statement's own exclusions) the three REAL outcomes are compared, under a message no known finding matches. -/
+theorem c16_ap_oracle_domain (ext' : Ext) (s : Schema) (v : JV) :
+    c16ApExcluded ext' s v =
+      (!(s.allPos (fun s v => !apNegZero s v) v) || !(s.allPos (fun s v => !apNonFinite s v) v) ||
+        !(s.allPos (fun s v => !apAnyMoved ext' s v) v)) ∧
+    apAccurateX = apAccurate :=
+  ⟨Proofs.Typed.c16ApExcluded_eq ext' s v, funext Proofs.Typed.apAccurateX_eq⟩
+
+/-! ## each exclusion is necessary: the three open findings on the models (replayed on the crate by op `c16`, `ap` build)
+
+`neg0` = the literal `-0`, `big` = `1e400`, `disp` = `0.000001`, whose `ryu` spelling is `1e-6` and whose `f64::to_string`
+is `0.000001` (`extDisp`: what the harness passes for that literal). -/
+def neg0 : Bytes := [0x2d, 0x30]
+def big : Bytes := [0x31, 0x65, 0x34, 0x30, 0x30]
+def disp : Bytes := [0x30, 0x2e, 0x30, 0x30, 0x30, 0x30, 0x30, 0x31]
+def extDisp : Ext := { prints := fun l => if l == disp then some ([0x31, 0x65, 0x2d, 0x36], disp) else none }
+
+/-- **`hNegZero` is necessary** (finding `C16-ap-negative-zero`, `c16 ap ia l2d30;`): `from_value::<i8>(-0)` = `Ok(0)`, `from_str::<i8>("-0")`
+    fails; every other hypothesis of the theorem holds of the pair -/
+example : fromValue { ap := true } {} (.int .i8) (.num (.lit neg0)) = .ok (.int 0) ∧
+    fromValueRef { ap := true } {} (.int .i8) (.num (.lit neg0)) = .ok (.int 0) ∧
+    (match Model.Typed.deTypedTop { cfg := { ap := true } } (.int .i8) neg0 with | .ok _ => false | _ => true) = true ∧
+    (Schema.int .i8).allPos (fun s v => !apNegZero s v) (.num (.lit neg0)) = false ∧
+    (Schema.int .i8).allPos (fun s v => !apNonFinite s v) (.num (.lit neg0)) = true ∧
+    (Schema.int .i8).allPos (fun s v => !apAnyMoved {} s v) (.num (.lit neg0)) = true ∧
+    (Schema.int .i8).allPos (apAccurate false) (.num (.lit neg0)) = true :=
+  ⟨by decide +kernel, by decide +kernel, by decide +kernel, by decide, by decide, by decide, by decide⟩
+
+/-- the same literal is fine under an unsigned, a 128-bit or an `f64` target: refused by both sides, `0` on both sides, `-0.0` on both -/
+example : fromValue { ap := true } {} (.int .u8) (.num (.lit neg0)) = .error () ∧
+    (match Model.Typed.deTypedTop { cfg := { ap := true } } (.int .u8) neg0 with | .ok _ => false | _ => true) = true ∧
+    fromValue { ap := true } {} (.int .i128) (.num (.lit neg0)) = .ok (.int 0) ∧
+    (match Model.Typed.deTypedTop { cfg := { ap := true } } (.int .i128) neg0 with | .ok t => t == .int 0 | _ => false) = true ∧
+    (match fromValue { ap := true } {} .f64 (.num (.lit neg0)) with | .ok t => t == .f64 0x8000000000000000 | _ => false) = true ∧
+    (match Model.Typed.deTypedTop { cfg := { ap := true } } .f64 neg0 with | .ok t => t == .f64 0x8000000000000000 | _ => false) = true ∧
+    (Schema.int .i128).allPos (fun s v => !apNegZero s v) (.num (.lit neg0)) = true ∧
+    (Schema.int .u8).allPos (fun s v => !apNegZero s v) (.num (.lit neg0)) = true :=
+  ⟨by decide +kernel, by decide +kernel, by decide +kernel, by decide +kernel, by decide +kernel, by decide +kernel, by decide, by decide⟩
+
+/-- **`hFinite` is necessary** (finding `C16-ap-non-finite-f64`, `c16 ap d l3165343030;`): `from_value::<f64>(1e400)` = `Ok(inf)`,
+    `from_str::<f64>("1e400")` fails with `number out of range` -/
+example : (match fromValue { ap := true } {} .f64 (.num (.lit big)) with | .ok t => t == .f64 0x7ff0000000000000 | _ => false) = true ∧
+    (match Model.Typed.deTypedTop { cfg := { ap := true } } .f64 big with | .err .NumberOutOfRange _ => true | _ => false) = true ∧
+    Schema.f64.allPos (fun s v => !apNonFinite s v) (.num (.lit big)) = false ∧
+    Schema.f64.allPos (fun s v => !apNegZero s v) (.num (.lit big)) = true ∧
+    Schema.f64.allPos (fun s v => !apAnyMoved {} s v) (.num (.lit big)) = true ∧
+    Schema.f64.allPos (apAccurate false) (.num (.lit big)) = true :=
+  ⟨by decide +kernel, by decide +kernel, by decide +kernel, by decide, by decide, by decide +kernel⟩
+
+/-- **`hAnyFixed` is necessary** (findings `C16-ap-display-form`, `c16 ap a l302e303030303031;`, and `C16-ap-negative-zero`, `c16 ap a l2d30;`):
+    `from_value::<Value>(0.000001)` = `1e-6` and `from_value::<Value>(-0)` = `0`, `from_str::<Value>` keeps both literals -/
+example : fromValue { ap := true } extDisp .any (.num (.lit disp)) = .ok (.any (.num (.lit [0x31, 0x65, 0x2d, 0x36]))) ∧
+    (match Model.Typed.deTypedTop { cfg := { ap := true } } .any disp with | .ok t => t == .any (.num (.lit disp)) | _ => false) = true ∧
+    Schema.any.allPos (fun s v => !apAnyMoved extDisp s v) (.num (.lit disp)) = false ∧
+    fromValue { ap := true } {} .any (.num (.lit neg0)) = .ok (.any (.num (.lit [0x30]))) ∧
+    (match Model.Typed.deTypedTop { cfg := { ap := true } } .any neg0 with | .ok t => t == .any (.num (.lit neg0)) | _ => false) = true ∧
+    Schema.any.allPos (fun s v => !apAnyMoved {} s v) (.num (.lit neg0)) = false :=
+  ⟨by decide +kernel, by decide +kernel, by decide +kernel, by decide +kernel, by decide +kernel, by decide +kernel⟩
+
+/-- `ryu`'s own spelling of the same number is inside the theorem: `litFixed`, and rebuilt verbatim -/
+example : litFixed { prints := fun _ => some ([0x31, 0x65, 0x2d, 0x36], disp) } [0x31, 0x65, 0x2d, 0x36] = true ∧
+    fromValue { ap := true } { prints := fun _ => some ([0x31, 0x65, 0x2d, 0x36], disp) } .any (.num (.lit [0x31, 0x65, 0x2d, 0x36])) =
+      .ok (.any (.num (.lit [0x31, 0x65, 0x2d, 0x36]))) := ⟨by decide +kernel, by decide +kernel⟩
+
+/-! ## non-vacuity: instances of the theorem -/
+
+/-- `[-0, 1.50e0, 255, [7, "x"], 1E2]` as `(i128, f64, u8, Value, f64)` under the feature: the literal `-0` under a 128-bit target, a
+    literal in a spelling `ryu` never prints under `f64`, integer literals under `u8` and inside a `Value`, an exponent without
+    fraction — `from_value` and the text path return the same typed value -/
+def exApSchema : Schema := .tuple [.int .i128, .f64, .int .u8, .any, .f64]
+def exApValue : JV := .arr [.num (.lit neg0), .num (.lit [0x31, 0x2e, 0x35, 0x30, 0x65, 0x30]), .num (.lit [0x32, 0x35, 0x35]),
+  .arr [.num (.lit [0x37]), .str [0x78]], .num (.lit [0x31, 0x45, 0x32])]
+
+example : ∃ bufs, Model.Ser.serCompact extE (Model.Ser.ofValue exApValue) = .ok bufs ∧
+    Model.Typed.deTypedTop { cfg := { ap := true }, src := .slice } exApSchema bufs.flatten =
+      .ok (.seq [.int 0, .f64 0x3ff8000000000000, .int 255, .any (.arr [.num (.lit [0x37]), .str [0x78]]), .f64 0x4059000000000000]) := by
+  have h := c16_text_agrees_ap_partial { ap := true } rfl .slice extE extE_ok {} exApSchema (by decide) exApValue (by decide +kernel)
+    (by decide +kernel) (by decide +kernel) (by decide +kernel) (by decide +kernel) (by decide) (.inr (by decide))
+  have hv : fromValue { po := false, fr := false, ap := true } {} exApSchema exApValue =
+      .ok (.seq [.int 0, .f64 0x3ff8000000000000, .int 255, .any (.arr [.num (.lit [0x37]), .str [0x78]]), .f64 0x4059000000000000]) := by
+    decide +kernel
+  obtain ⟨bufs, h1, h2⟩ := h
+  rw [hv] at h2
+  exact ⟨bufs, h1, h2⟩
+
+/-- `[1.5]` as `(i128,)`: a literal with a fraction MEETS the 128-bit target; `from_value` refuses (`"1.5".parse::<i128>()`), and the
+    theorem says the text path does too (`scan_integer128` returns `1`, `end_seq` finds `.`) -/
+example : ∃ bufs, Model.Ser.serCompact extE (Model.Ser.ofValue (.arr [.num (.lit [0x31, 0x2e, 0x35])])) = .ok bufs ∧
+    ∀ t, Model.Typed.deTypedTop { cfg := { ap := true }, src := .slice } (.tuple [.int .i128]) bufs.flatten ≠ .ok t := by
+  have h := c16_text_agrees_ap_partial { ap := true } rfl .slice extE extE_ok {} (.tuple [.int .i128]) (by decide)
+    (.arr [.num (.lit [0x31, 0x2e, 0x35])]) (by decide +kernel)
+    (by decide +kernel) (by decide +kernel) (by decide +kernel) (by decide +kernel) (by decide) (.inr (by decide))
+  have hv : fromValue { po := false, fr := false, ap := true } {} (.tuple [.int .i128]) (.arr [.num (.lit [0x31, 0x2e, 0x35])]) = .error () := by
+    decide +kernel
+  obtain ⟨bufs, h1, h2⟩ := h
+  rw [hv] at h2
+  exact ⟨bufs, h1, h2⟩
+
 end SJ.Props.C16
